@@ -122,6 +122,33 @@ def satisfying_blocks(body, extra_sinks=()):
     return S
 
 
+def first_error_wins_edges(body):
+    """`if self.status.is_none() { self.status = Some(err) }`: on the other edge the status field already holds an error
+    (the first one is kept, LevelDB's SaveError) — that edge discharges the error as well. Returns the `is Some` edges of
+    the tests of every Option-typed FIELD that receives a `Some(..)` status store in this body."""
+    fields = set()
+    for b in range(body.n):
+        if body.is_cleanup(b):
+            continue
+        for st in body.blocks[b]["stmts"]:
+            if st["k"] != "assign":
+                continue
+            fps = [e for e in st["pl"]["p"] if isinstance(e, dict) and "f" in e]
+            if not (fps and (fps[-1].get("t") or "").startswith("std::option::Option<") and fps[-1].get("n")):
+                continue
+            rv = st["rv"]
+            if (rv["k"] == "aggregate" and rv.get("variant") == "Some") or \
+                    (rv["k"] == "use" and rv["ops"][0]["k"] in ("copy", "move") and
+                     any(o.kind == "agg" and str(o.name).endswith("::Some") for o in origins(body, rv["ops"][0]))):
+                fields.add(fps[-1]["n"])
+    edges = []
+    if fields:
+        from .props.common import field_option_edges
+        for f in sorted(fields):
+            edges += field_option_edges(body, f)[0]
+    return edges
+
+
 _ST_CACHE = {}
 
 
@@ -275,6 +302,7 @@ def classify_local(P, body, cs, r, depth=0):
             continue
         if S is None:
             S = satisfying_blocks(body)
+            all_ok_edges = all_ok_edges + first_error_wins_edges(body)
         rets = body.return_blocks()
         for e in t.err:
             # the value cannot turn Ok later: Ok edges of other tests of the same local are infeasible
